@@ -62,6 +62,8 @@ pub struct H {
     pub transcript: Vec<String>,
     pub keep_transcript: bool,
     pub state_hashes: Vec<u64>,
+    /// slow reader: read at most this many bytes per client per turn
+    pub read_limit: Option<usize>,
 }
 
 pub struct CmdResult {
@@ -77,7 +79,7 @@ impl H {
         let keep = std::env::var("DETSIM_TRANSCRIPT").is_ok();
         if keep { g().log_text = std::env::var("DETSIM_EVENTLOG").is_ok(); }
         H { sim, inst: 0, cs: Vec::new(), cmap: BTreeMap::new(), step_no: 0, violations: Vec::new(), counters: BTreeMap::new(), dead: None,
-            transcript: Vec::new(), keep_transcript: keep, state_hashes: Vec::new() }
+            transcript: Vec::new(), keep_transcript: keep, state_hashes: Vec::new(), read_limit: None }
     }
     pub fn boot(&mut self, cfg: &ServerCfg, tag: &str) -> Result<usize, String> {
         let dir = format!("{}/{}", self.sim.base_dir, tag);
@@ -123,7 +125,7 @@ impl H {
                 let n = self.sim.write(i, &v);
                 self.cs[i].pending_tx.drain(..n);
             }
-            self.sim.read(i);
+            match self.read_limit { Some(n) => { self.sim.read_some(i, n); } None => { self.sim.read(i); } }
             self.parse_rx(i);
         }
     }
